@@ -144,11 +144,12 @@ def make_functor(E, dims, boxes, arrays, style, arstyle):
     return tensor.Functor(ob, ar)
 
 
-def functor(E, k, w, dimsets, cap):
+def functor(E, k, w, dimsets, cap, allow=None):
     from discopy.tensor import Dim
     sym.begin(E)
     boxes = []
-    d = gen_rigid(E, k, w, boxes)
+    d = gen_rigid(E, k, w, boxes, allow) if allow else gen_rigid(
+        E, k, w, boxes)
     dims = dict(zip('xy', E.choice('dims', dimsets)))
     I = Interp(dims, {})
     arrays = {}
@@ -295,9 +296,16 @@ def special(E):
 def harnesses(tier):
     q = tier == "quick"
     T = 600 if q else 900
-    k, w, cap = (2, 3, 36) if q else (3, 3, 81)
+    k, w, cap = (2, 3, 36) if q else (2, 4, 81)
     dimsets = [(2, 3), (3, 1)] if q else [(2, 3), (3, 1), (3, 2), (1, 2)]
-    return [
+    extra = [] if q else [
+        H("functor_k3", functor,
+          dict(k=3, w=3, dimsets=[(2, 2)], cap=64,
+               allow=('box', 'swap', 'cap', 'cup')), FUNCS,
+          covers=["functor"], engine="SYM (z3 QF_NRA) + DSE shapes",
+          bounds="rigid diagrams of 3 layers from {box, swap, cap, cup}, "
+          "width <= 3, dims (2, 2)", timeout_s=T)]
+    return extra + [
         H("functor", functor, dict(k=k, w=w, dimsets=dimsets, cap=cap), FUNCS,
           covers=["functor", "normal_form", "dict-int", "callable-dim",
                   "dict-dim", "ar-dict", "ar-callable"], engine="SYM (z3 QF_NRA) + DSE "
